@@ -1,7 +1,956 @@
-//! C14 — not built yet.
+//! C14 — every dialect grammar is closed (translator).
+//!
+//! For each of the 13 dialects built by `kind_to_dialect` the grammar graph is walked through the
+//! `cfg(sqruff_verif)` read accessors and written as Gallina terms into `<gen-dir>/Grammar_<d>.v`
+//! (node table, library, bracket sets, keyword sets, string table, cache keys, certificates).
+//! The same walk observes the property directly on the implementation (real `Dialect::ref` under
+//! `catch_unwind` for every reference reachable from `FileSegment`) and records, per node, what
+//! the real `Matchable::simple` / `is_optional` answer, so that Coq can compare the Gallina
+//! `simple`/`deref` evaluated on the dumped graph with the behaviour of the code.
+use std::collections::{BTreeMap, BTreeSet, HashMap, VecDeque};
+use std::fmt::Write as _;
+
+use ahash::AHashMap;
+use serde_json::{Value, json};
+use sqruff_lib_core::dialects::base::Dialect;
+use sqruff_lib_core::dialects::init::DialectKind;
+use sqruff_lib_core::parser::context::ParseContext;
+use sqruff_lib_core::parser::lexer::StringOrTemplate;
+use sqruff_lib_core::parser::matchable::{Matchable, MatchableTrait, MatchableTraitImpl};
+use sqruff_lib_core::parser::parser::Parser;
+use sqruff_lib_core::parser::segments::base::Tables;
+use sqruff_lib_core::parser::types::ParseMode;
+use sqruff_lib_dialects::kind_to_dialect;
+
 use crate::common::*;
 
-pub fn main(_args: &Args) {
-    eprintln!("c14: not built yet");
-    std::process::exit(2);
+pub fn dialect_of(name: &str) -> Dialect {
+    let kind: DialectKind = name.parse().expect("dialect kind");
+    kind_to_dialect(&kind).expect("dialect enabled")
+}
+
+// ------------------------------------------------------------------------------------ the dump
+#[derive(Clone, Debug)]
+pub enum Node {
+    Ref { name: usize, excl: Option<usize>, terms: Vec<usize>, reset: bool },
+    Seq { elems: Vec<usize>, terms: Vec<usize>, greedy: bool },
+    Brack { btype: usize, bset: usize, elems: Vec<usize>, terms: Vec<usize>, greedy: bool },
+    AnyOf { excl: Option<usize>, elems: Vec<usize>, terms: Vec<usize>, greedy: bool },
+    Delim { delim: usize, elems: Vec<usize>, terms: Vec<usize> },
+    NodeM { kind: usize, g: usize },
+    Str { raws: Vec<usize> },
+    Multi { raws: Vec<usize> },
+    Typed { types: Vec<usize> },
+    Regex,
+    Meta,
+    Cond,
+    Anything { terms: Vec<usize> },
+    Nothing,
+    NonCode,
+    BrackSeg,
+}
+
+/// What the real `simple` answered: 0 = Some hint, 1 = None (not simple), 2 = dangling reference
+/// panic, 3 = self-reference panic, 4 = other panic.
+#[derive(Clone, Debug, PartialEq)]
+pub struct RealSimple {
+    pub class: u8,
+    pub raws: Vec<usize>,
+    pub types: Vec<usize>,
+    pub msg: String,
+}
+
+pub struct Graph {
+    pub dialect: String,
+    pub strs: Vec<String>,
+    str_ids: HashMap<String, usize>,
+    pub nodes: Vec<Node>,
+    pub handles: Vec<Matchable>,
+    ids: HashMap<usize, usize>,
+    /// real `is_optional()`: Some(b) or None when it panics (todo!/unimplemented!)
+    pub optional: Vec<Option<bool>>,
+    /// real `cache_key()`; None when the type has none (panics)
+    pub keys: Vec<Option<u32>>,
+    pub library: Vec<(usize, usize)>,
+    pub brackets: Vec<(usize, Vec<(usize, usize, usize, bool)>)>,
+    pub sets: Vec<(usize, Vec<usize>)>,
+}
+
+impl Graph {
+    pub fn intern(&mut self, s: &str) -> usize {
+        if let Some(&i) = self.str_ids.get(s) {
+            return i;
+        }
+        let i = self.strs.len();
+        self.strs.push(s.to_string());
+        self.str_ids.insert(s.to_string(), i);
+        i
+    }
+    pub fn str_id(&self, s: &str) -> Option<usize> {
+        self.str_ids.get(s).copied()
+    }
+    pub fn deref(&self, name: usize) -> Option<usize> {
+        self.library.iter().find(|(n, _)| *n == name).map(|(_, id)| *id)
+    }
+    fn list(&mut self, ms: &[Matchable]) -> Vec<usize> {
+        ms.iter().map(|m| self.add(m)).collect()
+    }
+    pub fn add(&mut self, m: &Matchable) -> usize {
+        let p = m.verif_ptr();
+        if let Some(&i) = self.ids.get(&p) {
+            return i;
+        }
+        let id = self.nodes.len();
+        self.ids.insert(p, id);
+        self.nodes.push(Node::Nothing);
+        self.handles.push(m.clone());
+        self.optional.push(catch(|| m.is_optional()).ok());
+        self.keys.push(catch(|| m.cache_key()).ok());
+        let greedy = |pm: ParseMode| pm != ParseMode::Strict;
+        let node = match m.verif_inner() {
+            MatchableTraitImpl::Ref(r) => {
+                let name = self.intern(r.verif_reference());
+                let excl = r.verif_exclude().map(|e| self.add(e));
+                let terms = self.list(r.verif_terminators());
+                Node::Ref { name, excl, terms, reset: r.verif_reset_terminators() }
+            }
+            MatchableTraitImpl::Sequence(s) => {
+                let elems = self.list(s.verif_elements());
+                let terms = self.list(&s.terminators);
+                Node::Seq { elems, terms, greedy: greedy(s.parse_mode) }
+            }
+            MatchableTraitImpl::Bracketed(b) => {
+                let btype = self.intern(b.bracket_type);
+                let bset = self.intern(b.bracket_pairs_set);
+                let elems = self.list(b.this.verif_elements());
+                let terms = self.list(&b.this.terminators);
+                Node::Brack { btype, bset, elems, terms, greedy: greedy(b.this.parse_mode) }
+            }
+            MatchableTraitImpl::AnyNumberOf(a) => {
+                let excl = a.exclude.as_ref().map(|e| self.add(e));
+                let elems = self.list(a.verif_elements());
+                let terms = self.list(&a.terminators);
+                Node::AnyOf { excl, elems, terms, greedy: greedy(a.parse_mode) }
+            }
+            MatchableTraitImpl::Delimited(d) => {
+                let delim = self.add(d.verif_delimiter());
+                let elems = self.list(d.base.verif_elements());
+                let terms = self.list(&d.base.terminators);
+                Node::Delim { delim, elems, terms }
+            }
+            MatchableTraitImpl::NodeMatcher(n) => {
+                let kind = n.get_type() as u16 as usize;
+                let g = self.add(n.verif_match_grammar());
+                Node::NodeM { kind, g }
+            }
+            MatchableTraitImpl::StringParser(s) => {
+                let mut raws: Vec<String> = s.verif_simple().iter().cloned().collect();
+                raws.sort();
+                Node::Str { raws: raws.iter().map(|r| self.intern(r)).collect() }
+            }
+            MatchableTraitImpl::MultiStringParser(s) => {
+                let mut raws: Vec<String> = s.verif_simple().iter().cloned().collect();
+                raws.sort();
+                Node::Multi { raws: raws.iter().map(|r| self.intern(r)).collect() }
+            }
+            MatchableTraitImpl::TypedParser(t) => Node::Typed { types: t.verif_target_types().iter().map(|k| k as u16 as usize).collect() },
+            MatchableTraitImpl::RegexParser(_) => Node::Regex,
+            MatchableTraitImpl::MetaSegment(_) => Node::Meta,
+            MatchableTraitImpl::Conditional(_) => Node::Cond,
+            MatchableTraitImpl::Anything(a) => Node::Anything { terms: self.list(a.verif_terminators()) },
+            MatchableTraitImpl::Nothing(_) => Node::Nothing,
+            MatchableTraitImpl::NonCodeMatcher(_) => Node::NonCode,
+            MatchableTraitImpl::BracketedSegmentMatcher(_) => Node::BrackSeg,
+        };
+        self.nodes[id] = node;
+        id
+    }
+
+    pub fn build(dialect_name: &str, dialect: &Dialect) -> Graph {
+        let mut g = Graph {
+            dialect: dialect_name.to_string(),
+            strs: vec![],
+            str_ids: HashMap::new(),
+            nodes: vec![],
+            handles: vec![],
+            ids: HashMap::new(),
+            optional: vec![],
+            keys: vec![],
+            library: vec![],
+            brackets: vec![],
+            sets: vec![],
+        };
+        // fixed ids for the names the engine itself looks up
+        g.intern("FileSegment");
+        g.intern("bracket_pairs");
+        g.intern("angle_bracket_pairs");
+        let mut lib: Vec<(&str, Option<&Matchable>)> = dialect.verif_library().collect();
+        lib.sort_by(|a, b| a.0.cmp(b.0));
+        for (name, m) in lib {
+            let n = g.intern(name);
+            if let Some(m) = m {
+                let id = g.add(m);
+                g.library.push((n, id));
+            }
+        }
+        let mut bsets: Vec<&&'static str> = dialect.bracket_collections.keys().collect();
+        bsets.sort();
+        for label in bsets {
+            let mut pairs: Vec<_> = dialect.bracket_collections[*label].iter().cloned().collect();
+            pairs.sort();
+            let l = g.intern(label);
+            let ps = pairs.iter().map(|(t, s, e, p)| (g.intern(t), g.intern(s), g.intern(e), *p)).collect();
+            g.brackets.push((l, ps));
+        }
+        let mut sets: Vec<(&'static str, Vec<&'static str>)> = dialect.verif_sets().map(|(k, v)| (k, v.iter().copied().collect())).collect();
+        sets.sort();
+        for (label, mut kws) in sets {
+            kws.sort();
+            let l = g.intern(label);
+            let ks = kws.iter().map(|k| g.intern(k)).collect();
+            g.sets.push((l, ks));
+        }
+        g
+    }
+
+    /// names looked up through `Dialect::ref` when the interpreter executes node `n`
+    /// (mirror of Grammar/Model.v `node_refs`), and the bracket-type lookup failure if any.
+    pub fn node_refs(&self, n: usize) -> (Vec<usize>, bool) {
+        let bp = 1usize; // "bracket_pairs"
+        let all_pairs = |set: usize| -> Vec<usize> {
+            self.brackets.iter().filter(|(l, _)| *l == set).flat_map(|(_, ps)| ps.iter().flat_map(|p| [p.1, p.2])).collect()
+        };
+        match &self.nodes[n] {
+            Node::Ref { name, .. } => (vec![*name], true),
+            Node::Brack { btype, bset, greedy, .. } => {
+                let mut v = vec![];
+                let mut found = false;
+                for (l, ps) in &self.brackets {
+                    if l == bset {
+                        if let Some(p) = ps.iter().find(|p| p.0 == *btype) {
+                            v.push(p.1);
+                            v.push(p.2);
+                            found = true;
+                        }
+                    }
+                }
+                if *greedy {
+                    v.extend(all_pairs(bp));
+                }
+                (v, found)
+            }
+            Node::Seq { greedy: true, .. } | Node::AnyOf { greedy: true, .. } | Node::Anything { .. } => (all_pairs(bp), true),
+            _ => (vec![], true),
+        }
+    }
+    pub fn node_children(&self, n: usize) -> Vec<usize> {
+        match &self.nodes[n] {
+            Node::Ref { excl, terms, .. } => excl.iter().copied().chain(terms.iter().copied()).collect(),
+            Node::Seq { elems, terms, .. } | Node::Brack { elems, terms, .. } => elems.iter().chain(terms.iter()).copied().collect(),
+            Node::AnyOf { excl, elems, terms, .. } => excl.iter().copied().chain(elems.iter().copied()).chain(terms.iter().copied()).collect(),
+            Node::Delim { delim, elems, terms } => std::iter::once(*delim).chain(elems.iter().copied()).chain(terms.iter().copied()).collect(),
+            Node::NodeM { g, .. } => vec![*g],
+            Node::Anything { terms } => terms.clone(),
+            _ => vec![],
+        }
+    }
+    /// nodes that `simple` of `n` may recurse into (mirror of `lc_children`).
+    pub fn lc_children(&self, n: usize) -> Vec<usize> {
+        match &self.nodes[n] {
+            Node::Ref { name, .. } => self.deref(*name).into_iter().collect(),
+            Node::Seq { elems, .. } => {
+                let mut v = vec![];
+                for &e in elems {
+                    v.push(e);
+                    if self.optional[e] != Some(true) {
+                        break;
+                    }
+                }
+                v
+            }
+            Node::AnyOf { elems, .. } | Node::Delim { elems, .. } => elems.clone(),
+            Node::Brack { .. } => {
+                let (refs, found) = self.node_refs(n);
+                if found { refs.first().and_then(|s| self.deref(*s)).into_iter().collect() } else { vec![] }
+            }
+            Node::NodeM { g, .. } => vec![*g],
+            _ => vec![],
+        }
+    }
+    /// BFS from FileSegment; returns parent pointers (node -> (parent, via)) in visit order.
+    pub fn reach(&self) -> (Vec<usize>, HashMap<usize, (usize, String)>) {
+        let mut order = vec![];
+        let mut parent: HashMap<usize, (usize, String)> = HashMap::new();
+        let Some(root) = self.deref(0) else { return (order, parent) };
+        let mut seen = BTreeSet::new();
+        let mut q = VecDeque::new();
+        seen.insert(root);
+        q.push_back(root);
+        while let Some(n) = q.pop_front() {
+            order.push(n);
+            for c in self.node_children(n) {
+                if seen.insert(c) {
+                    parent.insert(c, (n, "child".into()));
+                    q.push_back(c);
+                }
+            }
+            for name in self.node_refs(n).0 {
+                if let Some(t) = self.deref(name) {
+                    if seen.insert(t) {
+                        parent.insert(t, (n, format!("ref {}", self.strs[name])));
+                        q.push_back(t);
+                    }
+                }
+            }
+        }
+        (order, parent)
+    }
+    pub fn path_to(&self, parent: &HashMap<usize, (usize, String)>, n: usize) -> Vec<usize> {
+        let mut p = vec![n];
+        let mut cur = n;
+        while let Some((q, _)) = parent.get(&cur) {
+            p.push(*q);
+            cur = *q;
+        }
+        p.reverse();
+        p
+    }
+    pub fn describe(&self, n: usize) -> String {
+        match &self.nodes[n] {
+            Node::Ref { name, .. } => format!("Ref({})", self.strs[*name]),
+            Node::Seq { .. } => "Sequence".into(),
+            Node::Brack { btype, .. } => format!("Bracketed({})", self.strs[*btype]),
+            Node::AnyOf { .. } => "AnyNumberOf".into(),
+            Node::Delim { .. } => "Delimited".into(),
+            Node::NodeM { g: _, kind } => {
+                let names: Vec<&str> = self.library.iter().filter(|(_, id)| *id == n).map(|(s, _)| self.strs[*s].as_str()).collect();
+                format!("NodeMatcher(kind {}{})", kind, if names.is_empty() { String::new() } else { format!(" = {}", names.join("/")) })
+            }
+            Node::Str { raws } => format!("StringParser({})", raws.iter().map(|r| self.strs[*r].clone()).collect::<Vec<_>>().join("|")),
+            Node::Multi { .. } => "MultiStringParser".into(),
+            Node::Typed { .. } => "TypedParser".into(),
+            Node::Regex => "RegexParser".into(),
+            Node::Meta => "MetaSegment".into(),
+            Node::Cond => "Conditional".into(),
+            Node::Anything { .. } => "Anything".into(),
+            Node::Nothing => "Nothing".into(),
+            Node::NonCode => "NonCodeMatcher".into(),
+            Node::BrackSeg => "BracketedSegmentMatcher".into(),
+        }
+    }
+    /// longest-path rank over the left-corner graph (certificate for termination of `simple`);
+    /// None for nodes on or above a left-corner cycle.
+    pub fn ranks(&self) -> Vec<Option<usize>> {
+        let n = self.nodes.len();
+        let mut rank: Vec<Option<usize>> = vec![None; n];
+        let mut state = vec![0u8; n]; // 0 new, 1 on stack, 2 done
+        for s in 0..n {
+            if state[s] != 0 {
+                continue;
+            }
+            // iterative DFS
+            let mut stack: Vec<(usize, Vec<usize>, usize)> = vec![(s, self.lc_children(s), 0)];
+            state[s] = 1;
+            while let Some((v, ch, i)) = stack.last_mut() {
+                if *i < ch.len() {
+                    let c = ch[*i];
+                    *i += 1;
+                    if state[c] == 0 {
+                        state[c] = 1;
+                        let cc = self.lc_children(c);
+                        stack.push((c, cc, 0));
+                    }
+                } else {
+                    let v = *v;
+                    let mut r = Some(0usize);
+                    for &c in ch.iter() {
+                        r = match (r, if state[c] == 2 { rank[c] } else { None }) {
+                            (Some(a), Some(b)) => Some(a.max(b + 1)),
+                            _ => None,
+                        };
+                    }
+                    rank[v] = r;
+                    state[v] = 2;
+                    stack.pop();
+                }
+            }
+        }
+        rank
+    }
+}
+
+pub fn real_simple(g: &mut Graph, dialect: &Dialect, n: usize) -> RealSimple {
+    let cfg: AHashMap<String, bool> = AHashMap::new();
+    let cx = ParseContext::new(dialect, &cfg);
+    let h = g.handles[n].clone();
+    match catch(|| h.simple(&cx, None)) {
+        Ok(Some((raws, types))) => {
+            let mut rs: Vec<String> = raws.into_iter().collect();
+            rs.sort();
+            let raws = rs.iter().map(|r| g.intern(r)).collect();
+            let mut ts: Vec<usize> = types.iter().map(|k| k as u16 as usize).collect();
+            ts.sort();
+            RealSimple { class: 0, raws, types: ts, msg: String::new() }
+        }
+        Ok(None) => RealSimple { class: 1, raws: vec![], types: vec![], msg: String::new() },
+        Err(msg) => {
+            let class = if msg.contains("Grammar refers to") {
+                2
+            } else if msg.contains("Self referential") {
+                3
+            } else {
+                4
+            };
+            RealSimple { class, raws: vec![], types: vec![], msg: trunc(&msg, 120) }
+        }
+    }
+}
+
+// ------------------------------------------------------------------------------------ Gallina
+fn gl(xs: &[usize]) -> String {
+    g_list(xs.iter().map(|x| x.to_string()))
+}
+fn gopt(x: &Option<usize>) -> String {
+    match x {
+        Some(v) => format!("(Some {})", v),
+        None => "None".into(),
+    }
+}
+fn gnode(n: &Node) -> String {
+    match n {
+        Node::Ref { name, excl, terms, reset } => format!("NRef {} {} {} {}", name, gopt(excl), gl(terms), g_bool(*reset)),
+        Node::Seq { elems, terms, greedy } => format!("NSeq {} {} {}", gl(elems), gl(terms), g_bool(*greedy)),
+        Node::Brack { btype, bset, elems, terms, greedy } => format!("NBrack {} {} {} {} {}", btype, bset, gl(elems), gl(terms), g_bool(*greedy)),
+        Node::AnyOf { excl, elems, terms, greedy } => format!("NAnyOf {} {} {} {}", gopt(excl), gl(elems), gl(terms), g_bool(*greedy)),
+        Node::Delim { delim, elems, terms } => format!("NDelim {} {} {}", delim, gl(elems), gl(terms)),
+        Node::NodeM { kind, g } => format!("NNode {} {}", kind, g),
+        Node::Str { raws } => format!("NStr {}", gl(raws)),
+        Node::Multi { raws } => format!("NMulti {}", gl(raws)),
+        Node::Typed { types } => format!("NTyped {}", gl(types)),
+        Node::Regex => "NRegex".into(),
+        Node::Meta => "NMeta".into(),
+        Node::Cond => "NCond".into(),
+        Node::Anything { terms } => format!("NAnything {}", gl(terms)),
+        Node::Nothing => "NNothing".into(),
+        Node::NonCode => "NNonCode".into(),
+        Node::BrackSeg => "NBrackSeg".into(),
+    }
+}
+fn gopt_bool(b: &Option<bool>) -> &'static str {
+    match b {
+        Some(true) => "(Some true)",
+        Some(false) => "(Some false)",
+        None => "None",
+    }
+}
+
+pub struct DialectReport {
+    pub dialect: String,
+    pub text: String,
+    pub n_nodes: usize,
+    pub n_reach: usize,
+    pub n_refs: usize,
+    pub n_obligations: usize,
+    pub dangling: Vec<Value>,
+    pub stats: Value,
+    pub strs: Vec<String>,
+}
+
+/// Everything about one dialect: graph, direct observations, generated Coq file.
+pub fn analyse(name: &str, known: &[String], corpus_hits: &BTreeMap<String, String>, buf: &mut Buf) -> DialectReport {
+    let dialect = dialect_of(name);
+    let mut g = Graph::build(name, &dialect);
+    let n_nodes = g.nodes.len();
+
+    // real simple of every node (also interns the raws it returns)
+    let mut simples: Vec<RealSimple> = vec![];
+    for n in 0..n_nodes {
+        let s = real_simple(&mut g, &dialect, n);
+        simples.push(s);
+    }
+
+    // reachability + direct observation of Dialect::ref on every reachable reference
+    let (order, parent) = g.reach();
+    let root_ok = g.deref(0).is_some();
+    buf.direct("root", root_ok, &format!("{}:FileSegment", name), "FileSegment is not defined", json!({"dialect": name}));
+    let mut dangling: BTreeMap<usize, usize> = BTreeMap::new(); // name -> first node using it
+    let mut n_refs = 0usize;
+    let mut ref_names: BTreeSet<usize> = BTreeSet::new();
+    let mut bad_bracket: Vec<usize> = vec![];
+    for &n in &order {
+        let (refs, found) = g.node_refs(n);
+        if !found {
+            bad_bracket.push(n);
+        }
+        for r in refs {
+            n_refs += 1;
+            ref_names.insert(r);
+        }
+    }
+    for &r in &ref_names {
+        let nm = g.strs[r].clone();
+        let real = catch(|| dialect.r#ref(&nm));
+        let model = g.deref(r);
+        // translator fidelity: the dumped library answers like the real lookup
+        buf.hyp("dump_deref_agrees", "blocking", real.is_ok() == model.is_some(), json!({"dialect": name, "name": nm}));
+        if real.is_err() {
+            let user = order.iter().copied().find(|&n| g.node_refs(n).0.contains(&r)).unwrap();
+            dangling.insert(r, user);
+        }
+    }
+    let mut dangling_json = vec![];
+    let mut known_paths: Vec<(usize, Vec<usize>)> = vec![];
+    for (&r, &user) in &dangling {
+        let nm = g.strs[r].clone();
+        let path = g.path_to(&parent, user);
+        let key = format!("{}:{}", name, nm);
+        let path_txt: Vec<String> = path.iter().map(|&p| format!("{}#{}", g.describe(p), p)).collect();
+        let sql = corpus_hits.get(&key).cloned();
+        let input = json!({"dialect": name, "reference": nm, "used_by_node": user, "path_from_FileSegment": path_txt, "sql_that_aborts": sql});
+        buf.direct("reachable-reference", false, &key, &format!("grammar of dialect {} refers to '{}' which is not in the dialect (reachable from FileSegment)", name, nm), input.clone());
+        dangling_json.push(input);
+        if known.iter().any(|k| *k == key) {
+            known_paths.push((r, path));
+        }
+    }
+    for _ in 0..(ref_names.len() - dangling.len()) {
+        buf.direct("reachable-reference", true, "", "", Value::Null);
+    }
+    for &n in &bad_bracket {
+        let key = format!("{}:bracket#{}", name, g.describe(n));
+        buf.direct("bracket-type", false, &key, "bracket type not in its bracket set", json!({"dialect": name, "node": n, "path": g.path_to(&parent, n)}));
+    }
+    // known names that are no longer dangling: give Coq an empty path so that the stale entry fails
+    let mut known_ids: Vec<usize> = vec![];
+    for k in known {
+        if let Some(rest) = k.strip_prefix(&format!("{}:", name)) {
+            let id = g.intern(rest);
+            known_ids.push(id);
+            if !known_paths.iter().any(|(r, _)| *r == id) {
+                known_paths.push((id, vec![]));
+            }
+        }
+    }
+
+    // termination certificate
+    let ranks = g.ranks();
+    for &n in &order {
+        let ok = ranks[n].is_some();
+        if !ok {
+            buf.direct("simple-terminates", false, &format!("{}:leftcorner-cycle#{}", name, g.describe(n)), "first-token hint recursion does not terminate (left-corner cycle)", json!({"dialect": name, "node": n, "path": g.path_to(&parent, n)}));
+        }
+    }
+    buf.direct("simple-terminates", order.iter().all(|&n| ranks[n].is_some()), &format!("{}:leftcorner", name), "", Value::Null);
+
+    // absent-name samples for the deref tie
+    let mut probes: Vec<(usize, bool)> = vec![];
+    let lib_names: Vec<usize> = g.library.iter().map(|(n, _)| *n).collect();
+    for &nm in &lib_names {
+        probes.push((nm, true));
+    }
+    for extra in ["NoSuchSegment", "ZzzKeywordSegment", "fileSegment", "", "FileSegment "] {
+        let id = g.intern(extra);
+        let real = catch(|| dialect.r#ref(extra)).is_ok();
+        probes.push((id, real));
+    }
+    for &r in &ref_names {
+        if !lib_names.contains(&r) {
+            probes.push((r, false));
+        }
+    }
+
+    // ---------------- emit
+    let d = name;
+    let mut t = String::with_capacity(1 << 20);
+    let _ = writeln!(t, "(* generated by `sqv c14` from the freshly built dialect `{}` -- do not edit *)", d);
+    t.push_str("From Sq Require Import Base.Bytes Grammar.Model Grammar.Proofs.\nOpen Scope N_scope.\n");
+    let _ = writeln!(t, "(* string table: {} interned strings, full table in Grammar_{}.strs.json; only the two names the engine itself uses are needed in Coq *)", g.strs.len(), d);
+    let _ = writeln!(t, "Definition strs : list (N * str) := [\n{}].", g.strs.iter().enumerate().take(2).map(|(i, s)| format!("({},{})", i, g_str(s))).collect::<Vec<_>>().join(";\n"));
+    let _ = writeln!(t, "Definition nodes : list (N * node) := [\n{}].", g.nodes.iter().enumerate().map(|(i, n)| format!("({},{})", i, gnode(n))).collect::<Vec<_>>().join(";\n"));
+    let opt_true: Vec<usize> = (0..n_nodes).filter(|&i| g.optional[i] == Some(true)).collect();
+    let opt_none: Vec<usize> = (0..n_nodes).filter(|&i| g.optional[i].is_none()).collect();
+    let _ = writeln!(t, "(* is_optional(): true for opt_true, panics for opt_none, false for every other node *)");
+    let _ = writeln!(t, "Definition opt_true : list N := {}.\nDefinition opt_none : list N := {}.", gl(&opt_true), gl(&opt_none));
+    t.push_str("Definition opts : list (N * option bool) := map (fun n => (n, Some true)) opt_true ++ map (fun n => (n, None)) opt_none.\n");
+    let _ = writeln!(t, "Definition library : list (N * N) := {}.", g_list(g.library.iter().map(|(a, b)| format!("({},{})", a, b))));
+    let _ = writeln!(
+        t,
+        "Definition brackets : list (N * list (N * N * N * bool)) := {}.",
+        g_list(g.brackets.iter().map(|(l, ps)| format!("({},{})", l, g_list(ps.iter().map(|p| format!("({},{},{},{})", p.0, p.1, p.2, g_bool(p.3)))))))
+    );
+    let _ = writeln!(t, "Definition keyword_sets : list (N * list N) := {}.", g_list(g.sets.iter().map(|(l, ks)| format!("({},{})", l, gl(ks)))));
+    let keyed: Vec<usize> = (0..n_nodes).filter(|&i| g.keys[i].is_some()).collect();
+    let _ = writeln!(t, "Definition keyed_ids : list N := {}.", gl(&keyed));
+    let _ = writeln!(t, "Definition key_vals : list N := {}.", gl(&keyed.iter().map(|&i| g.keys[i].unwrap() as usize).collect::<Vec<_>>()));
+    t.push_str("Definition cache_keys : list (N * N) := combine keyed_ids key_vals.\n");
+    let _ = writeln!(t, "Definition ranks : list (N * N) := {}.", g_list(ranks.iter().enumerate().filter_map(|(i, r)| r.map(|r| format!("({},{})", i, r)))));
+    t.push_str("Definition g : graph := mk_graph nodes opts library brackets.\n");
+    let _ = writeln!(t, "Definition known : list N := {}.", gl(&known_ids));
+    let _ = writeln!(t, "Definition known_paths : list (N * list N) := {}.", g_list(known_paths.iter().map(|(r, p)| format!("({},{})", r, gl(p)))));
+    let _ = writeln!(
+        t,
+        "Definition real_simple : list (N * sres) := [\n{}].",
+        simples
+            .iter()
+            .enumerate()
+            .map(|(i, s)| {
+                let v = match s.class {
+                    0 => format!("SVal (Some ({},{}))", gl(&s.raws), gl(&s.types)),
+                    1 => "SVal None".to_string(),
+                    2 => "SDangling".to_string(),
+                    3 => "SSelfRef".to_string(),
+                    _ => "SPanic".to_string(),
+                };
+                format!("({},{})", i, v)
+            })
+            .collect::<Vec<_>>()
+            .join(";\n")
+    );
+    let _ = writeln!(t, "Definition real_deref : list (N * bool) := {}.", g_list(probes.iter().map(|(n, b)| format!("({},{})", n, g_bool(*b)))));
+    let fuel = ranks.iter().flatten().max().copied().unwrap_or(0) + 2;
+    let _ = writeln!(t, "Definition fuel : nat := N.to_nat {}.", fuel);
+    // diagnostics first (printed even when a theorem below fails)
+    t.push_str("Eval vm_compute in (101, N.of_nat (length (pset_elements (reach g)))).\n");
+    t.push_str("Eval vm_compute in (102, dangling_names g (reach g)).\n");
+    t.push_str("Eval vm_compute in (103, simple_mismatches g fuel real_simple).\n");
+    t.push_str("Eval vm_compute in (104, deref_mismatches g real_deref).\n");
+    t.push_str("Eval vm_compute in (105, unranked g (reach g) ranks).\n");
+    // obligations
+    let _ = writeln!(t, "Theorem closed_{d} : closed_except_b g known = true.\nProof. vm_compute. reflexivity. Qed.");
+    let _ = writeln!(t, "Theorem known_dangling_{d} : forallb (fun kp => path_dangling_b g (snd kp) (fst kp)) known_paths = true.\nProof. vm_compute. reflexivity. Qed.");
+    let _ = writeln!(t, "Theorem ranked_{d} : rank_ok_b g (reach g) ranks = true.\nProof. vm_compute. reflexivity. Qed.");
+    let _ = writeln!(t, "Theorem simple_agrees_{d} : simple_mismatches g fuel real_simple = [].\nProof. vm_compute. reflexivity. Qed.");
+    let _ = writeln!(t, "Theorem deref_agrees_{d} : deref_mismatches g real_deref = [].\nProof. vm_compute. reflexivity. Qed.");
+    let _ = writeln!(t, "Theorem strs_distinct_{d} : ids_dense_b strs = true.\nProof. vm_compute. reflexivity. Qed.");
+    // the instantiated general theorems
+    let _ = writeln!(
+        t,
+        "Theorem {d}_every_reachable_reference_resolves : forall n, reachable g n -> node_ok_except g known n.\nProof. exact (closed_except_sound g known closed_{d}). Qed."
+    );
+    let _ = writeln!(
+        t,
+        "Theorem {d}_simple_terminates : forall n, reachable g n -> exists r, rank_of (mk_ranks ranks) n = Some r /\\ forall f, (N.to_nat r < f)%nat -> simple g f [] n <> SFuel /\\ simple g f [] n <> SSelfRef.\nProof. exact (simple_terminates_reachable g known ranks closed_{d} ranked_{d}). Qed."
+    );
+    let _ = writeln!(
+        t,
+        "Theorem {d}_known_are_dangling : forall kp, In kp known_paths -> exists n nd, reachable g n /\\ get_node g n = Some nd /\\ In (fst kp) (node_refs g nd) /\\ deref g (fst kp) = None.\nProof. intros kp H. apply (path_dangling_sound g (snd kp) (fst kp)). exact (proj1 (forallb_forall _ _) known_dangling_{d} kp H). Qed."
+    );
+    let _ = writeln!(t, "Print Assumptions {d}_every_reachable_reference_resolves.\nPrint Assumptions {d}_simple_terminates.\nPrint Assumptions {d}_known_are_dangling.");
+
+    let n_simple_some = simples.iter().filter(|s| s.class == 0).count();
+    let kinds = {
+        let mut h: BTreeMap<&'static str, usize> = BTreeMap::new();
+        for n in &g.nodes {
+            let k = match n {
+                Node::Ref { .. } => "Ref",
+                Node::Seq { .. } => "Sequence",
+                Node::Brack { .. } => "Bracketed",
+                Node::AnyOf { .. } => "AnyNumberOf",
+                Node::Delim { .. } => "Delimited",
+                Node::NodeM { .. } => "NodeMatcher",
+                Node::Str { .. } => "StringParser",
+                Node::Multi { .. } => "MultiStringParser",
+                Node::Typed { .. } => "TypedParser",
+                Node::Regex => "RegexParser",
+                Node::Meta => "MetaSegment",
+                Node::Cond => "Conditional",
+                Node::Anything { .. } => "Anything",
+                Node::Nothing => "Nothing",
+                Node::NonCode => "NonCodeMatcher",
+                Node::BrackSeg => "BracketedSegmentMatcher",
+            };
+            *h.entry(k).or_default() += 1;
+        }
+        h
+    };
+    buf.count("nodes", n_nodes);
+    buf.count("reachable_nodes", order.len());
+    buf.count("reachable_reference_edges", n_refs);
+    buf.count("distinct_reachable_reference_names", ref_names.len());
+    buf.count("dangling_reachable_names", dangling.len());
+    let stats = json!({"dialect": name, "nodes": n_nodes, "library": g.library.len(), "reachable": order.len(), "reference_edges": n_refs,
+        "distinct_reference_names": ref_names.len(), "dangling": dangling.keys().map(|r| g.strs[*r].clone()).collect::<Vec<_>>(),
+        "simple_some": n_simple_some, "simple_panics": simples.iter().filter(|s| s.class >= 2).count(), "max_rank": fuel - 2, "node_kinds": kinds,
+        "reachable_simple_panics": order.iter().filter(|&&n| simples[n].class >= 2).count()});
+    DialectReport { dialect: name.to_string(), text: t, n_nodes, n_reach: order.len(), n_refs, n_obligations: 8, dangling: dangling_json, stats, strs: g.strs.clone() }
+}
+
+// ------------------------------------------------------------------------------------ SQL synthesis
+pub fn ser_tree(seg: &sqruff_lib_core::parser::segments::base::ErasedSegment, out: &mut String) {
+    let _ = write!(out, "({}", seg.get_type() as u16);
+    if seg.segments().is_empty() {
+        let _ = write!(out, " {:?}", seg.raw().as_str());
+    } else {
+        for c in seg.segments() {
+            out.push(' ');
+            ser_tree(c, out);
+        }
+    }
+    out.push(')');
+}
+
+/// Parse `sql` under `dialect`; Ok(serialised tree) / Err(panic or error message).
+pub fn parse_with(dialect: &Dialect, sql: &str) -> Result<String, String> {
+    catch(|| {
+        let tables = Tables::default();
+        let lexer = dialect.lexer();
+        let (tokens, _errs) = lexer.lex(&tables, StringOrTemplate::String(sql)).map_err(|e| format!("lex error: {:?}", e))?;
+        let parser = Parser::new(dialect, AHashMap::new());
+        match parser.parse(&tables, &tokens, None) {
+            Ok(Some(tree)) => {
+                let mut s = String::new();
+                ser_tree(&tree, &mut s);
+                Ok(s)
+            }
+            Ok(None) => Ok("(none)".to_string()),
+            Err(e) => Ok(format!("(parse-error {:?})", e.description)),
+        }
+    })
+    .unwrap_or_else(|p| Err(format!("PANIC {}", p)))
+}
+
+const PROBES: &[&str] = &[
+    "CREATE VIEW v AS SELECT 1 WITH NO SCHEMA BINDING\n",
+    "CREATE CAST (int AS bool) WITH FUNCTION fname\n",
+    "drop view a restrict\n",
+    "CREATE DATABASE d COMMENT 'x'\n",
+    "SELECT sum(a) OVER (ORDER BY b RANGE BETWEEN INTERVAL '1' DAY PRECEDING AND CURRENT ROW) FROM t\n",
+    "CREATE TABLE t (a int)\n",
+    "CREATE TEMPORARY TABLE t (a int)\n",
+    "CREATE OR REPLACE TABLE t (a int)\n",
+    "CREATE TABLE t AS SELECT 1\n",
+    "CREATE VIEW v AS SELECT 1\n",
+    "CREATE INDEX i ON t (a)\n",
+    "CREATE SCHEMA s\n",
+    "CREATE DATABASE d\n",
+    "CREATE FUNCTION f() RETURNS int\n",
+    "CREATE SEQUENCE s\n",
+    "CREATE ROLE r\n",
+    "CREATE USER u\n",
+    "CREATE TRIGGER tr BEFORE INSERT ON t FOR EACH ROW EXECUTE PROCEDURE f()\n",
+    "CREATE MODEL m\n",
+    "CREATE EXTENSION e\n",
+    "CREATE CAST (int AS text) WITH FUNCTION f\n",
+    "DROP TABLE t\n",
+    "DROP VIEW v\n",
+    "DROP INDEX i\n",
+    "DROP SCHEMA s CASCADE\n",
+    "DROP FUNCTION f\n",
+    "DROP TYPE x\n",
+    "DROP ROLE r\n",
+    "DROP USER u\n",
+    "DROP TRIGGER tr\n",
+    "DROP SEQUENCE s\n",
+    "DROP MODEL m\n",
+    "DROP DATABASE d\n",
+    "DROP CAST (int AS text)\n",
+    "ALTER TABLE t ADD COLUMN b int\n",
+    "ALTER TABLE t DROP COLUMN b\n",
+    "ALTER TABLE t RENAME TO u\n",
+    "ALTER TABLE t ALTER COLUMN b SET DEFAULT 1\n",
+    "ALTER SEQUENCE s INCREMENT BY 2\n",
+    "TRUNCATE TABLE t\n",
+    "INSERT INTO t (a) VALUES (1)\n",
+    "INSERT INTO t DEFAULT VALUES\n",
+    "INSERT OVERWRITE t SELECT 1\n",
+    "UPDATE t SET a = 1 WHERE b = 2\n",
+    "DELETE FROM t WHERE a = 1\n",
+    "MERGE INTO t USING s ON t.a = s.a WHEN MATCHED THEN UPDATE SET a = 1 WHEN NOT MATCHED THEN INSERT (a) VALUES (1)\n",
+    "GRANT SELECT ON t TO u\n",
+    "GRANT ALL PRIVILEGES ON TABLE t TO ROLE r WITH GRANT OPTION\n",
+    "REVOKE SELECT ON t FROM u\n",
+    "SET x = 1\n",
+    "USE d\n",
+    "EXPLAIN SELECT 1\n",
+    "DESCRIBE t\n",
+    "BEGIN TRANSACTION\n",
+    "START TRANSACTION\n",
+    "COMMIT\n",
+    "ROLLBACK\n",
+    "COMMIT WORK AND NO CHAIN\n",
+    "SELECT a FROM t\n",
+    "SELECT DISTINCT a, b FROM t WHERE a IN (1, 2) GROUP BY a HAVING count(*) > 1 ORDER BY a DESC NULLS LAST LIMIT 1 OFFSET 2\n",
+    "SELECT a FROM t ORDER BY a NULLS FIRST\n",
+    "SELECT a FROM t FETCH FIRST 1 ROWS ONLY\n",
+    "SELECT CASE WHEN a THEN 1 ELSE 2 END FROM t\n",
+    "SELECT CAST(a AS int) FROM t\n",
+    "SELECT a::int FROM t\n",
+    "SELECT EXTRACT(year FROM d) FROM t\n",
+    "SELECT sum(a) OVER (PARTITION BY b ORDER BY c ROWS BETWEEN UNBOUNDED PRECEDING AND CURRENT ROW) FROM t\n",
+    "SELECT sum(a) FILTER (WHERE b) FROM t\n",
+    "SELECT a FROM t WINDOW w AS (PARTITION BY b)\n",
+    "SELECT * FROM a JOIN b USING (x)\n",
+    "SELECT * FROM a NATURAL JOIN b\n",
+    "SELECT * FROM a CROSS JOIN b\n",
+    "SELECT * FROM a LEFT OUTER JOIN b ON a.x = b.x\n",
+    "SELECT * FROM a FULL OUTER JOIN b ON a.x = b.x\n",
+    "SELECT * FROM a, LATERAL (SELECT 1) b\n",
+    "SELECT * FROM t TABLESAMPLE BERNOULLI (10)\n",
+    "SELECT * FROM t AS x (a, b)\n",
+    "SELECT 1 UNION ALL SELECT 2\n",
+    "SELECT 1 INTERSECT SELECT 2\n",
+    "SELECT 1 EXCEPT SELECT 2\n",
+    "SELECT 1 MINUS SELECT 2\n",
+    "WITH RECURSIVE c AS (SELECT 1) SELECT * FROM c\n",
+    "WITH c AS (SELECT 1) SELECT * FROM c\n",
+    "SELECT a FROM t GROUP BY ROLLUP (a)\n",
+    "SELECT a FROM t GROUP BY CUBE (a)\n",
+    "SELECT a FROM t GROUP BY GROUPING SETS ((a), ())\n",
+    "SELECT INTERVAL '1' DAY\n",
+    "SELECT DATE '2020-01-01', TIME '10:00', TIMESTAMP '2020-01-01 10:00'\n",
+    "SELECT a IS NOT NULL, b IS DISTINCT FROM c, d LIKE 'x' ESCAPE '\\\\', e BETWEEN 1 AND 2, f ILIKE 'y', g RLIKE 'z' FROM t\n",
+    "SELECT EXISTS (SELECT 1), NOT a, a AND b OR c FROM t\n",
+    "SELECT a FROM t QUALIFY row_number() OVER (ORDER BY a) = 1\n",
+    "SELECT ARRAY[1, 2], a[1] FROM t\n",
+    "SELECT * FROM t FOR UPDATE\n",
+    "SELECT * FROM UNNEST(a) WITH ORDINALITY\n",
+    "SELECT * FROM t PIVOT (sum(a) FOR b IN (1, 2))\n",
+    "VALUES (1, 2), (3, 4)\n",
+    "CREATE TABLE t (a int NOT NULL PRIMARY KEY, b varchar(10) DEFAULT 'x' UNIQUE REFERENCES u (b) ON DELETE CASCADE, c int COMMENT 'c', CONSTRAINT k FOREIGN KEY (a) REFERENCES v (a) ON UPDATE SET NULL, CHECK (a > 0))\n",
+    "CREATE TABLE t (a int AUTO_INCREMENT) COMMENT 'x'\n",
+    "CREATE TABLE t LIKE u\n",
+    "CREATE EXTERNAL TABLE t (a int)\n",
+    "CREATE TABLE IF NOT EXISTS t (a int) WITH (format = 'ORC')\n",
+    "CREATE TABLE t (a int) PARTITION BY RANGE (a)\n",
+    "CREATE TABLE t (a int) CLUSTER BY (a)\n",
+    "CREATE MATERIALIZED VIEW v AS SELECT 1\n",
+    "CREATE TEMP VIEW v AS SELECT 1\n",
+    "CREATE UNIQUE INDEX i ON t (a)\n",
+    "ALTER TABLE t ADD CONSTRAINT k PRIMARY KEY (a)\n",
+    "ALTER TABLE t MODIFY COLUMN a int FIRST\n",
+    "ANALYZE TABLE t COMPUTE STATISTICS\n",
+    "CALL p(1)\n",
+    "PREPARE s FROM 'select 1'\n",
+    "EXECUTE s\n",
+    "COPY t FROM 's3://x'\n",
+    "UNLOAD ('select 1') TO 's3://x'\n",
+    "SHOW TABLES\n",
+    "DECLARE x int\n",
+    "CREATE TYPE x AS ENUM ('a')\n",
+    "COMMENT ON TABLE t IS 'x'\n",
+    "VACUUM t\n",
+    "REFRESH MATERIALIZED VIEW v\n",
+    "PRAGMA foo\n",
+    "ATTACH DATABASE 'x' AS y\n",
+    "REPLACE INTO t VALUES (1)\n",
+    "INSERT OR REPLACE INTO t VALUES (1)\n",
+    "INSERT INTO t VALUES (1) ON CONFLICT DO NOTHING\n",
+    "INSERT INTO t VALUES (1) RETURNING a\n",
+    "UPDATE t SET a = 1 FROM u WHERE t.b = u.b RETURNING a\n",
+    "DELETE FROM t USING u WHERE t.a = u.a\n",
+    "SELECT a FROM t WHERE b = ANY (SELECT 1)\n",
+    "SELECT a COLLATE x FROM t\n",
+    "SELECT a AT TIME ZONE 'UTC' FROM t\n",
+    "SELECT TRIM(BOTH 'x' FROM a), SUBSTRING(a FROM 1 FOR 2), POSITION('a' IN b), OVERLAY(a PLACING b FROM 1) FROM t\n",
+    "SELECT LISTAGG(a, ',') WITHIN GROUP (ORDER BY a) FROM t\n",
+    "SELECT first_value(a) IGNORE NULLS OVER (ORDER BY b RANGE BETWEEN 1 PRECEDING AND 1 FOLLOWING EXCLUDE CURRENT ROW) FROM t\n",
+];
+
+/// For every dialect: run corpus files (own and foreign) and probe statements through the real
+/// parser and collect, per dangling reference, the shortest SQL whose parse aborts in
+/// `Dialect::ref`. Returns key "<dialect>:<Name>KeywordSegment" -> SQL.
+pub fn synthesise_sql(dialects: &[&str], thorough: bool, out: &mut Out) -> BTreeMap<String, String> {
+    let files = corpus();
+    let mut items: Vec<(String, String)> = vec![];
+    for d in dialects {
+        for p in PROBES {
+            items.push((d.to_string(), p.to_string()));
+        }
+        for (i, f) in files.iter().enumerate() {
+            if f.text.len() > 6000 {
+                continue;
+            }
+            if thorough || f.dialect == *d || f.dialect == "ansi" || i % 4 == 0 {
+                items.push((d.to_string(), f.text.clone()));
+            }
+        }
+    }
+    let hits = std::sync::Mutex::new(BTreeMap::<String, String>::new());
+    let cache = std::sync::Mutex::new(HashMap::<String, std::sync::Arc<Dialect>>::new());
+    let n_items = items.len();
+    par_run(
+        out,
+        &items,
+        || (),
+        |_, (d, sql), buf| {
+            let dialect = {
+                let mut c = cache.lock().unwrap();
+                c.entry(d.clone()).or_insert_with(|| std::sync::Arc::new(dialect_of(d))).clone()
+            };
+            let r = parse_with(&dialect, sql);
+            buf.count("synth_parses", 1);
+            if let Err(msg) = r {
+                let name = if let Some(i) = msg.find("Grammar refers to the '") {
+                    let rest = &msg[i + 23..];
+                    rest.find('\'').map(|j| format!("{}KeywordSegment", &rest[..j]))
+                } else if let Some(i) = msg.find("Grammar refers to '") {
+                    let rest = &msg[i + 19..];
+                    rest.find('\'').map(|j| rest[..j].to_string())
+                } else {
+                    None
+                };
+                if let Some(name) = name {
+                    buf.count("synth_aborts", 1);
+                    let key = format!("{}:{}", d, name);
+                    let mut h = hits.lock().unwrap();
+                    let e = h.entry(key).or_insert_with(|| sql.clone());
+                    if sql.len() < e.len() {
+                        *e = sql.clone();
+                    }
+                }
+            }
+        },
+    );
+    let _ = n_items;
+    hits.into_inner().unwrap()
+}
+
+pub fn main(args: &Args) {
+    silence_panics();
+    let mut out = Out::new(&args.out);
+    let gen_dir = args.flag("--gen-dir").unwrap_or_else(|| "/tmp/sqv-c14-gen".into());
+    std::fs::create_dir_all(&gen_dir).unwrap();
+    let known: Vec<String> = args.flag("--known").map(|s| s.split(',').filter(|x| !x.is_empty()).map(|x| x.to_string()).collect()).unwrap_or_default();
+    let only: Option<String> = args.flag("--dialect");
+
+    if let Some(path) = args.flag("--replay-input") {
+        // re-run one direct observation: {"dialect":..,"reference":..,"sql_that_aborts":..}
+        let v: Value = serde_json::from_str(&std::fs::read_to_string(path).unwrap()).unwrap();
+        let d = v["dialect"].as_str().unwrap_or("ansi").to_string();
+        let dialect = dialect_of(&d);
+        let mut buf = Buf::default();
+        if let Some(r) = v["reference"].as_str() {
+            let ok = catch(|| dialect.r#ref(r)).is_ok();
+            buf.direct("replay-reference", ok, &format!("{}:{}", d, r), "reference does not resolve", v.clone());
+        }
+        if let Some(sql) = v["sql_that_aborts"].as_str() {
+            let r = parse_with(&dialect, sql);
+            buf.direct("replay-sql", r.is_ok(), &format!("{}:{}", d, v["reference"].as_str().unwrap_or("?")), &format!("{:?}", r.err()), v.clone());
+        }
+        out.absorb(buf);
+        out.finish();
+        return;
+    }
+
+    let dialects: Vec<&str> = DIALECTS.iter().copied().filter(|d| only.as_deref().map(|o| o == *d).unwrap_or(true)).collect();
+    let hits = synthesise_sql(&dialects, args.thorough(), &mut out);
+    let reports = std::sync::Mutex::new(Vec::<DialectReport>::new());
+    par_run(
+        &mut out,
+        &dialects,
+        || (),
+        |_, d, buf| {
+            let rep = analyse(d, &known, &hits, buf);
+            std::fs::write(format!("{}/Grammar_{}.v", gen_dir, d), &rep.text).unwrap();
+            std::fs::write(format!("{}/Grammar_{}.strs.json", gen_dir, d), serde_json::to_string(&rep.strs).unwrap()).unwrap();
+            reports.lock().unwrap().push(rep);
+        },
+    );
+    let mut reports = reports.into_inner().unwrap();
+    reports.sort_by(|a, b| a.dialect.cmp(&b.dialect));
+    for r in &reports {
+        out.stat(r.stats.clone());
+    }
+    out.stat(json!({"sql_synthesised_for": hits.keys().collect::<Vec<_>>()}));
+    out.finish();
 }
